@@ -28,8 +28,8 @@ EXHAUSTIVE_COMPLETE = True
 
 E = ...
 LEN_FORMS = [[0], [2], [3], [0, E], [2, E], [3, E], [E, 0], [E, 2], [E, 5], [0, 2], [1, 1], [2, 5],
-             [3, 1], [-1, E], [-1, 2], [E, -1], [-1], [E, E]]
-INT = {"min": [[-1], [0], [2]], "max": [[-1], [0], [2]]}
+             [3, 1], [-1, E], [-1, 2], [E, -1], [-1], [E, E], [2.0], [True], [2.0, E], [E, 2.0], [0, 2.0]]
+INT = {"min": [[-1], [0], [2], [0.0], [False]], "max": [[-1], [0], [2], [2.0], [True]]}
 # 0.54 / 0.46 / 1.2 / 1.3 lie on the wrong side of the base values 0.5 / 1.25 but coincide with them
 # once rounded at precision 1 (a refinement that compares "as the validator would" goes wrong there)
 BIG = 1.7976931348623157e308        # (scaling it by 10**precision overflows)
